@@ -250,7 +250,8 @@ pub fn run(opts: &Opts) -> i32 {
             .collect();
         let results: Vec<_> = jobs
             .par_iter()
-            .map(|(i, racers)| {
+            .enumerate()
+            .map(|(jdx, (i, racers))| {
                 let sc = Race {
                     world: starts[*i].0.clone(),
                     racers: racers.clone(),
@@ -264,6 +265,18 @@ pub fn run(opts: &Opts) -> i32 {
                     seen: Some(Default::default()),
                 };
                 let (st, fails) = explore(&sc, &cfg);
+                // pruning self-check on every 32nd (thorough: 8th) race: same outcomes as unpruned
+                let (every, cap) = if opts.tier == Tier::Quick { (32, 3_000) } else { (8, 100_000) };
+                if jdx % every == 0 && fails.is_empty() && !st.capped {
+                    match crate::explore::sched::pruning_selfcheck(&sc, cfg.bound, cap) {
+                        Some(Ok(_)) => rep.add("pruning_selfcheck_races_equal_to_unpruned", 1),
+                        Some(Err(e)) => {
+                            eprintln!("MACHINERY ERROR: C02 state-key pruning is unsound in space {name}, racers {racers:?}: {e}");
+                            std::process::exit(2);
+                        }
+                        None => rep.add("pruning_selfcheck_races_skipped_unpruned_too_large", 1),
+                    }
+                }
                 (*i, racers.clone(), st, fails)
             })
             .collect();
